@@ -20,20 +20,13 @@
 (* three-stream Wichmann-Hill generator from (Seed, k), so a run is        *)
 (* reproducible from VERIF_SEED alone.                                     *)
 (***************************************************************************)
-EXTENDS Teal, TLC
+EXTENDS Teal, TLC, Prng
 
 CONSTANTS Seed
 
 -----------------------------------------------------------------------------
-(* Pseudo-random digits, all intermediate values < 2^31 *)
-WH(s) == << (171 * s[1]) % 30269, (172 * s[2]) % 30307, (170 * s[3]) % 30323 >>
-WH0(k, salt) == << 1 + (((Seed % 1000) * 7919 + k * 10007 + salt * 13) % 30268),
-                   1 + (((Seed % 1000) * 31 + k * 17 + salt * 101 + 5) % 30306),
-                   1 + (((Seed % 1000) + k * 3 + salt * 7 + 11) % 30322) >>
-RECURSIVE WHn(_, _)
-WHn(s, n) == IF n = 0 THEN s ELSE WHn(WH(s), n - 1)
-(* the i-th digit of case k of family `salt`, in radix r *)
-Rnd(k, salt, i, r) == LET s == WHn(WH0(k, salt), i + 2) IN (s[1] + s[2] + s[3]) % r
+(* Pseudo-random digits: Prng.tla *)
+Rnd(k, salt, i, r) == RndS(Seed, k, salt, i, r)
 
 -----------------------------------------------------------------------------
 (* Building blocks *)
@@ -102,7 +95,7 @@ FailTail(cons, region) == IF cons = "bz_fail" THEN << Lab("fail_" \o region), Op
 (* Skeletons.  K1 / K2 are statement sequences (already consumed checks), *)
 (* T1/T2 the fail tails for the main region / subroutine regions.          *)
 (* Each returns the program body after the pragma.                         *)
-NSkel == 26
+NSkel == 28
 Skel(j, K1, K2, Tm, Ts) ==
     CASE j = 1  -> K1 \o Approve \o Tm                                            \* straight line
       [] j = 2  -> K1 \o FreeCond(1) \o << Bz("else") >> \o Filler \o << B("join"), Lab("else") >> \o Filler
@@ -147,11 +140,17 @@ Skel(j, K1, K2, Tm, Ts) ==
                    \o << B("head"), Lab("out"), Op("retsub") >> \o Ts               \* loop inside the callee
       [] j = 26 -> << Callsub("sa") >> \o Approve \o Tm \o << Lab("sa") >> \o FreeCond(1) \o << Bz("base"), Callsub("sa"), Lab("base") >>
                    \o K1 \o << Op("retsub") >> \o Ts                               \* recursive subroutine
+      [] j = 27 -> << Callsub("sa") >> \o K1 \o Approve \o Tm \o << Lab("sa"), Callsub("sb"), Op("retsub"), Lab("sb") >>
+                   \o FreeCond(2) \o << Bz("sr") >> \o Approve \o << Lab("sr"), Op("retsub") >>
+                                                                                  \* nested callee approves internally, check after the outer call
+      [] j = 28 -> << Callsub("sa") >> \o Approve \o Tm \o << Lab("sa"), Callsub("sb") >> \o K1 \o << Op("retsub"), Lab("sb") >>
+                   \o FreeCond(2) \o << Bz("sr") >> \o Approve \o << Lab("sr"), Op("retsub") >> \o Ts
+                                                                                  \* the same one level down: check after the inner call
 
-SkelUsesSub(j) == j \in {10, 11, 12, 13, 14, 15, 16, 17, 18, 20, 21, 23, 24, 25, 26}
+SkelUsesSub(j) == j \in {10, 11, 12, 13, 14, 15, 16, 17, 18, 20, 21, 23, 24, 25, 26, 27, 28}
 SkelUsesK2(j)  == j \in {4, 19, 20, 21}
 (* region in which hole 1 / hole 2 sits (for region-local fail labels)     *)
-Hole1Region(j) == IF j \in {10, 11, 12, 17, 18, 21, 24, 25, 26} THEN "s" ELSE "m"
+Hole1Region(j) == IF j \in {10, 11, 12, 17, 18, 21, 24, 25, 26, 28} THEN "s" ELSE "m"
 Hole2Region(j) == IF j = 21 THEN "s" ELSE "m"
 MinVersion(j)  == IF j \in {19} THEN 8 ELSE IF SkelUsesSub(j) \/ j \in {8, 9} THEN 4 ELSE 3
 
